@@ -43,18 +43,21 @@ def wonProfitOn (bets : List Bet) (u i : Nat) : Int :=
 def stakedOn (bets : List Bet) (u i : Nat) : Int :=
   ((bets.filter (fun x => x.market == u)).map (fun x => x.stakeOn i)).sum
 
+/-- the sum used by the invariant proofs, as a sum over the filtered bet records -/
 theorem c04s_lostStakes_eq (bets : List Bet) (u i : Nat) : lostStakes bets u i = lostStakeOn bets u i := by
   unfold lostStakes lostStakeOn
   rw [sumBy_filter]
   have : (fun t : Bet => sumBy (fbAt i) t.fulfs) = (fun t => t.stakeOn i) := funext (fun t => fbAt_sum i t)
   rw [this]
 
+/-- likewise for the winnings of the won bets -/
 theorem c04s_wonProfits_eq (bets : List Bet) (u i : Nat) : wonProfits bets u i = wonProfitOn bets u i := by
   unfold wonProfits wonProfitOn
   rw [sumBy_filter]
   have : (fun t : Bet => sumBy (fpAt i) t.fulfs) = (fun t => t.profitOn i) := funext (fun t => fpAt_sum i t)
   rw [this]
 
+/-- likewise for the total stake backed (C10: this is the participation's `totalBet`) -/
 theorem c04s_backedStake_eq (bets : List Bet) (u i : Nat) : backedStake bets u i = stakedOn bets u i := by
   unfold backedStake stakedOn
   have : betStakeAt u i = (fun t : Bet => if (fun x : Bet => x.market == u) t then (fun x : Bet => x.stakeOn i) t else 0) := by
@@ -196,6 +199,7 @@ theorem c04_payout (p : Params) (bal : List (Nat × Int)) (h t : Nat) (ops : Lis
     · simp
     · simp
 
+/-- a bet none of whose backing parts names `i` carries no stake and no promised winnings for `i` -/
 theorem c04s_stakeOn_zero (x : Bet) (i : Nat) (h : ∀ f ∈ x.fulfs, f.idx ≠ i) : x.stakeOn i = 0 ∧ x.profitOn i = 0 := by
   have : x.fulfs.filter (fun f => f.idx == i) = [] := by
     rw [List.filter_eq_nil_iff]
@@ -205,6 +209,7 @@ theorem c04s_stakeOn_zero (x : Bet) (i : Nat) (h : ∀ f ∈ x.fulfs, f.idx ≠ 
   rw [this]
   exact ⟨rfl, rfl⟩
 
+/-- a sum of zeros -/
 theorem c04s_sum_map_zero {α : Type} (l : List α) (g : α → Int) (h : ∀ x ∈ l, g x = 0) : (l.map g).sum = 0 := by
   induction l with
   | nil => rfl
